@@ -6,6 +6,7 @@ import (
 	"bufio"
 	"fmt"
 	"io"
+	"os"
 	"math"
 	"math/big"
 	"os/exec"
@@ -14,6 +15,20 @@ import (
 	"sync/atomic"
 	"time"
 )
+
+var errPrinted int64
+
+func firstLineOf(s string) string {
+	for _, l := range strings.Split(s, "\n") {
+		if strings.Contains(l, "error") {
+			if len(l) > 300 {
+				l = l[:300]
+			}
+			return l
+		}
+	}
+	return ""
+}
 
 type Result int
 
@@ -313,6 +328,9 @@ func (s *Solver) runOne(which string, sc *Script, ms int, tactic string, wantMod
 		return Unknown, nil, true
 	}
 	r, errd := parseStatus(out)
+	if errd && atomic.AddInt64(&errPrinted, 1) <= 3 {
+		fmt.Fprintf(os.Stderr, "solver error (%s): %s\n", which, firstLineOf(out))
+	}
 	if s.LogFile != nil {
 		fmt.Fprintf(s.LogFile, "; => %s %q\n", r, strings.TrimSpace(out))
 	}
